@@ -132,22 +132,46 @@ def r13_2(ctx, prog, crate):
     bi, t = sw
     arms, otherwise = tables.arm_targets(t)
     some_t, none_t = arms.get(1, otherwise), arms.get(0, otherwise)
-    res = {}
-    for nm, tgt, other in (("matched", some_t, none_t), ("unmatched", none_t, some_t)):
-        for y in tables.exclusive_blocks(b, tgt, [other]):
-            for s in b.blocks[y]["stmts"]:
-                if s["k"] == "assign" and s["p"]["l"] == 0 and not s["p"]["proj"]:
-                    rv = s["rv"]
-                    if rv["k"] == "binop":
-                        a = _cls(b, rv["a"], pos[0], si[0], al[0])
-                        c = _cls(b, rv["b"], pos[0], si[0], al[0])
-                        res[nm] = (rv["op"], a, c)
-                    else:
-                        res[nm] = ("other", rv["k"])
-    ctx.check(res.get("matched") == ("Ge", "index", "split"), "R13.2", ["is_match", "matched-row"],
-              "when a filter matches the result is %s, expected index >= split (inclusive half)" % (res.get("matched"),), b.where(some_t), detail=res.get("matched"))
-    ctx.check(res.get("unmatched") == ("Eq", "len", "split"), "R13.2", ["is_match", "unmatched-row"],
-              "when nothing matches the result is %s, expected len == split (no inclusive filters)" % (res.get("unmatched"),), b.where(none_t), detail=res.get("unmatched"))
+    # what is returned on the matched / unmatched paths, as canonical comparisons (any spelling: `index >= split`,
+    # `split <= index`, `!(index < split)`; `len == split` with the operands in either order)
+    from lib.patheval import PathEval
+    from lib.symexpr import canon_cmp, show
+
+    def cls(e):
+        if e[0] == "payload" and e[3][0] == "site" and e[3][2] == pos[0].bb:
+            return "index"
+        if e[0] == "site" and e[2] == si[0].bb:
+            return "split"
+        if e[0] in ("call", "site") and e[1].rsplit("::", 1)[-1] == "len":
+            a = e[2] if e[0] == "call" else e[3]
+            if a and a[0][0] == "site" and a[0][2] == al[0].bb:
+                return "len"
+            if a and a[0][0] in ("ptr", "sptr") and isinstance(a[0][1][0], tuple) and a[0][1][0][0] == "ret" and a[0][1][0][2] == al[0].bb and not a[0][1][1]:
+                return "len"
+        return "?(%s)" % show(e)
+    sums = PathEval(b).run()
+    res = {"matched": set(), "unmatched": set()}
+    if ctx.check(sums is not None and sums, "R13.2", ["is_match", "summarisable"], "FilterSet::is_match has a loop or too many paths", b.where(0)):
+        for sm in sums:
+            d = [a for a, p in sm.conds if a[0] == "discr" and a[1][0] == "site" and a[1][2] == pos[0].bb]
+            if not d:
+                res["matched"].add("returns without looking at position()")
+                res["unmatched"].add("returns without looking at position()")
+                continue
+            row = "matched" if d[0][2] == 1 else "unmatched"
+            e = sm.ret
+            neg = False
+            while e[0] == "un" and e[1] == "Not":
+                e, neg = e[2], not neg
+            atom, pol = canon_cmp(e, unsigned=False)
+            if atom is None:
+                res[row].add("returns %s" % show(sm.ret))
+            else:
+                res[row].add(("%s" if (pol != neg) else "not %s") % ("%s(%s, %s)" % (atom[0], cls(atom[1]), cls(atom[2]))))
+    ctx.check(res["matched"] == {"not Lt(index, split)"}, "R13.2", ["is_match", "matched-row"],
+              "when a filter matches the result is %s, expected index >= split (the inclusive half)" % sorted(res["matched"]), b.where(some_t), detail=sorted(res["matched"]))
+    ctx.check(res["unmatched"] in ({"Eq(len, split)"}, {"Eq(split, len)"}), "R13.2", ["is_match", "unmatched-row"],
+              "when nothing matches the result is %s, expected len == split (no inclusive filters)" % sorted(res["unmatched"]), b.where(none_t), detail=sorted(res["unmatched"]))
     # position closure: Filter::is_match(f, entry_path)
     cl = [x for x in prog.children(b) if x.kind == "Closure"]
     if ctx.check(len(cl) == 1, "R13.2", ["is_match", "predicate-closure"], "closures: %d" % len(cl), b.where(0)):
